@@ -7,6 +7,7 @@ import (
 	"time"
 
 	"github.com/glebziz/fs_db/verifh/conc"
+	"github.com/glebziz/fs_db/verifh/enum"
 	"github.com/glebziz/fs_db/verifh/seq"
 	"github.com/glebziz/fs_db/verifh/hk"
 )
@@ -38,6 +39,8 @@ func Replay(r *hk.Replay) int {
 		return conc.ReplayFile(r)
 	case "seq":
 		return seq.ReplayFile(r)
+	case "enum":
+		return enum.ReplayFile(r)
 	}
 	if f := replayers[r.Engine]; f != nil {
 		return f(r)
